@@ -42,3 +42,11 @@ def get_obls(prefix, mode, tuples, tier="quick", table_err=0, known=None, tag=""
                        desc="real ldb_version_get over a symbolic version == newest entry <= snapshot over all entries of all files",
                        bounds="%d level-0 files, %d files in level %d, %d in level %d, %d entries per file, 1-byte user keys, all sequences/types/file numbers" % (l0, l1, la, l2, lb, e)))
     return out
+
+
+def reuse_manifest_obls(prefix):
+    return [Obl("%s.reuse-manifest" % prefix, "vset/reuse_manifest.c", real=["util/options.c", "util/comparator.c"],
+                include_real=["version_set.c"], kit=["vp_nondet.c", "vp_mem.c"], unwind=4, timeout=300,
+                functions=["ldb_versions_reuse_manifest", "target_file_size"],
+                desc="real ldb_versions_reuse_manifest: reuse iff allowed/parsable/small/openable; the appending log writer is created with exactly the MANIFEST's size",
+                bounds="all option values, sizes, numbers, failure combinations")]
